@@ -750,3 +750,16 @@ package adt
 //@   ensures [closedmono] old(t.node.listIsClosed) ==> t.node.listIsClosed
 //@   ensures [lenmono] t.node.maxListLen >= old(t.node.maxListLen)
 //@   assigns heap
+
+// ---- C05 / C07: the constraint marker of a field survives compile and export ----
+// compile maps the AST token of a field (`?`, `!`, none) to an ArcType, export
+// maps it back: the two functions are inverse on the three field kinds.
+//@ spec func arcOfTok(t token.Token) ArcType { ite(t == token.OPTION, ArcOptional, ite(t == token.NOT, ArcRequired, ArcMember)) }
+//@ spec func tokOfArc(a ArcType) token.Token { ite(a == ArcOptional, token.OPTION, ite(a == ArcRequired, token.NOT, token.ILLEGAL)) }
+//@ func ConstraintFromToken
+//@   ensures result == arcOfTok(t)
+//@ func (ArcType).Token
+//@   ensures result == tokOfArc(a)
+//@ lemma arc_token_inverse: forall a ArcType :: (a == ArcMember || a == ArcOptional || a == ArcRequired) ==> arcOfTok(tokOfArc(a)) == a
+//@ lemma token_arc_inverse: forall t token.Token :: (t == token.OPTION || t == token.NOT) ==> tokOfArc(arcOfTok(t)) == t
+//@ lemma arc_token_distinct: tokOfArc(ArcOptional) != tokOfArc(ArcRequired) && tokOfArc(ArcOptional) != tokOfArc(ArcMember) && tokOfArc(ArcRequired) != tokOfArc(ArcMember)
